@@ -84,6 +84,17 @@ def run(ctx, known, built):
             f.write(b"Definition cs : list (N * (case * fcase * etm * scase * scase)) := [\n" + b";\n".join(lines[bi:bi + RS]) + b"].\n")
             f.write(b"Eval vm_compute in mism10 ts cs.\n")
         files.append(vf)
+    slines = open(os.path.join(out, "store_cases.txt"), "rb").read().split(b"\n")[:-1]
+    store_files = set()
+    for bi in range(0, len(slines), 200):
+        vf = os.path.join(out, "store_%d.v" % bi)
+        with open(vf, "wb") as f:
+            f.write(HEADER)
+            f.write(b"Definition ts : list string := [" + b";".join(_lit(n) for n in names) + b"].\n")
+            f.write(b"Definition cs : list (N * (scase * scase)) := [\n" + b";\n".join(slines[bi:bi + 200]) + b"].\n")
+            f.write(b"Eval vm_compute in store_mism ts cs.\n")
+        files.append(vf)
+        store_files.add(vf)
     if not built:
         ctx.disagreements.append({"what": "Coq development does not build; correspondence not evaluated"})
         res = {}
@@ -104,6 +115,12 @@ def run(ctx, known, built):
             mm = parse_term(vals[0])
         except Exception:
             mm = [(-1, vals[0][:2000])]
+        if vf in store_files:
+            for idx in mm:
+                line = next((ln for ln in slines if ln.startswith(b"(%d, " % idx)), b"")
+                ctx.disagreements.append({"what": "the tree saved for a font built by store calls differs from the model of the "
+                                                  "writing loop", "index": idx, "case_term": line.decode("utf-8", "replace")[:1500]})
+            continue
         for item in mm:
             idx = item[0]
             line = next((ln for ln in lines if ln.startswith(b"(%d, " % idx)), b"")
@@ -118,15 +135,17 @@ def run(ctx, known, built):
             continue
         seen.add(key)
         ctx.violations.append({"ufo": fl["ufo"], "what": fl["what"], "case": fl.get("case"), "fixture": fl.get("fixture"),
+                               "store_calls": fl.get("store_calls"), "alias_pair": fl.get("alias_pair"),
                                "all_differences": [x["what"] for x in fails if x.get("ufo") == key][:10],
                                "demand": "repeated loads equal, saved trees byte-identical (C10)"})
     ctx.obligation("correspondence:C10 (%d shards, %d UFOs compared with the model)" % (len(files), summ["compared_with_model"]),
                    nshard_ok == len(files) and not ctx.disagreements, "model and implementation differ")
     runs = summ["in_process_loads_per_ufo"] + summ["child_processes_per_ufo"]
     ctx.cov.update({
-        "evaluations": summ["ufos"] * runs,
+        "evaluations": summ["ufos"] * runs + summ["built_fonts"] * summ["instances_per_built_font"],
         "distinct_nontrivial": summ["converted_groups"] + summ["without_order_list"],
-        "rule": "evaluations = UFOs x (in-process loads + child-process loads); non-trivial = UFOs whose load converts "
+        "rule": "evaluations = UFOs x (in-process loads + child-process loads) + built fonts x instances (each font built by the "
+                "same data/image insert calls incl. every alias spelling of each key, saved to its own directory); non-trivial = UFOs whose load converts "
                 "kerning groups (new names made, collisions resolved) plus UFOs with feature blocks and no order list",
         "exhaustive": False,
         "input_distribution": summ,
@@ -141,7 +160,9 @@ def replay(ctx, path):
     d = json.load(open(path))
     inp = d.get("input") or {}
     tmp = os.path.join(ctx.scratch, "replay10.json")
-    if inp.get("fixture"):
+    if inp.get("store_calls"):
+        json.dump({"store_calls": inp["store_calls"]}, open(tmp, "w"))
+    elif inp.get("fixture"):
         json.dump({"fixture": inp["fixture"]}, open(tmp, "w"))
     elif inp.get("case"):
         json.dump({"case": inp["case"]}, open(tmp, "w"))
